@@ -1,5 +1,7 @@
 //! Contains zero pass builder of AVRA-rs
-use std::{cell::RefCell, collections::HashMap, path::PathBuf, rc::Rc, string::ToString};
+#[cfg(not(avra_verif))]
+use std::collections::HashMap;
+use std::{cell::RefCell, path::PathBuf, rc::Rc, string::ToString};
 
 use crate::{
     context::CommonContext,
@@ -11,6 +13,9 @@ use crate::{
 
 use crate::instruction::InstructionOps;
 use failure::{bail, Error};
+#[cfg(avra_verif)]
+use crate::{vmap::HashMap, vmap_btreeset as btreeset};
+#[cfg(not(avra_verif))]
 use maplit::btreeset;
 
 #[derive(Clone, PartialEq, Eq, Debug)]
